@@ -1038,20 +1038,22 @@ def spec_size(spec: dict) -> int:
 
 COMPONENTS = {
     "real": ["tatsu.parproc.parproc.parproc", "tatsu.parproc.legacy.parallel_proc", "tatsu.parproc.visual.parproc_visual",
-             "tatsu.parproc.summary.show_summary/show_result", "tatsu.parproc.pmap.active_pmap/executor_pmap/process_pmap/thread_pmap",
+             "tatsu.parproc.legacy.processing_loop", "tatsu.parproc.summary.show_summary/show_result", "tatsu.parproc.pmap.active_pmap/executor_pmap/process_pmap/thread_pmap",
              "tatsu.parproc.task.taskproc/Task", "tatsu.parproc.result.Result", "tatsu.parproc.payload.VisualPayload",
              "pickle round trip of Task and Result (per-run knob)", "concurrent.futures.Future"],
     "stub": ["ProcessPoolExecutor/ThreadPoolExecutor (sim.execseam.SimPool: FIFO start, arbitrary completion order)",
              "concurrent.futures.as_completed (snapshot semantics re-implemented)", "multiprocessing.Manager().Event / threading.Event",
-             "multiprocessing.cpu_count", "time.thread_time", "memory_use", "Progress (display only)"],
+             "multiprocessing.cpu_count", "time.thread_time", "memory_use", "Progress / tatsu.barz.BarRow / Multi (display only)",
+             "thread-pool worker threads (sim.execseam.BodyThread: real threads, one at a time, pre-empted at line events chosen by the scheduler; module locks of task.py cooperative)"],
 }
 
 EXPECTED_PROBES = ["refill_happened", "exception_captured", "captured_exception_yielded_first", "captured_exception_yielded_last", "pickle_round_trip", "thread_pool",
-                   "result_could_not_be_pickled", "results_read_again_after_the_loop", "earlier_run_stopped_by_consumer", "empty_list", "single_task_shortcut", "uncaptured_config"]
+                   "result_could_not_be_pickled", "results_read_again_after_the_loop", "earlier_run_stopped_by_consumer", "empty_list", "single_task_shortcut", "uncaptured_config",
+                   "thread_pool_bodies_interleaved", "task_body_ran_interleaved", "payload_listed_twice", "two_payloads_one_path", "slow_consumer", "entry_processing_loop"]
 
-RULE = ("one case = (spec, schedule): spec generated from the run seed (entry point, pool kind, worker count, 0..12 payloads "
+RULE = ("one case = (spec, schedule): spec generated from the run seed (entry point incl. processing_loop, pool kind, worker count, 0..12 (6 %: 16-64) payloads incl. repeated / equal entries and entries sharing a path, "
         "each returning or raising (chained / argument-less / unpicklable exceptions, unpicklable or falsy outcomes, deep recursion, raises() that changes while the function runs), raises() declaration, pickable, "
-        "extra args, pickle knob, fresh-worker-state knob, slow tasks, events-per-seam knob, optionally an earlier run stopped by its consumer); "
+        "extra args, pickle knob, fresh-worker-state knob, slow tasks, slow consumer (virtual time against as_completed deadlines), events-per-seam knob, optionally an earlier run stopped by its consumer; thread pools: task bodies interleaved line by line (60 % of thread-pool runs)); "
         "schedule = every 'which event fires next / how many events at this seam / which done future is handed out' "
         "decision. Non-trivial: >=2 payloads, >=2 completions through the simulated pool and >=1 scheduling decision. "
         "Distinct: distinct SHA-256 digests of the event log (decisions, submit/start/complete/yield events with payload keys and results).")
